@@ -41,6 +41,51 @@ def judged_queries(ctx, h, rng, methods, n, sig):
     return True
 
 
+def burst(h, rng):
+    """a run of edits concentrated on ONE section (or one byte interval) with no lookup in between: many index events for few
+    members, members joining with and without an address / blocks joining in bulk -- the states in which the choice between
+    replaying pending events and rebuilding the index matters"""
+    from world import K
+    if rng.random() < 0.6 and h.by_kind["Section"] and h.by_kind["ByteInterval"]:
+        s = rng.choice(h.by_kind["Section"])
+        for _ in range(rng.choice([2, 3, 5, 8])):
+            mem = [x for x in h.w.kids(s)]
+            r = rng.random()
+            if mem and r < 0.45:
+                bi = rng.choice(mem)
+                if rng.random() < 0.6:
+                    h.emit([14, bi, world.opt(rng.choice(worldgen.ADDRS))])
+                else:
+                    h.emit([15, bi, rng.choice(worldgen.SIZES + [32])])
+            elif r < 0.85:
+                bi = rng.choice(h.by_kind["ByteInterval"])
+                if rng.random() < 0.5:
+                    h.emit([14, bi, []])                 # joins without an address: no index event
+                if rng.random() < 0.5:
+                    h.emit([2, bi, [s]])
+                else:
+                    h.emit([3, s, [K["ByteInterval"]], 0, [[bi]]])
+            elif mem:
+                h.emit([2, rng.choice(mem), []])
+    elif h.by_kind["ByteInterval"]:
+        bi = rng.choice(h.by_kind["ByteInterval"])
+        blocks = h.by_kind["CodeBlock"] + h.by_kind["DataBlock"]
+        for _ in range(rng.choice([2, 3, 5, 8])):
+            mem = [x for x in h.w.kids(bi)]
+            r = rng.random()
+            if mem and r < 0.5:
+                b = rng.choice(mem)
+                h.emit([15, b, rng.choice(worldgen.SIZES)] if rng.random() < 0.5 else [16, b, rng.choice(worldgen.OFFS)])
+            elif blocks and r < 0.85:
+                some = list(dict.fromkeys(rng.choice(blocks) for _ in range(rng.choice([1, 2, 3]))))
+                if rng.random() < 0.5:
+                    h.emit([3, bi, [K["CodeBlock"], K["DataBlock"]], 5, [some]])        # bulk update
+                else:
+                    h.emit([2, some[0], [bi]])
+            elif mem:
+                h.emit([2, rng.choice(mem), []])
+
+
 def lookup_history(ctx, g, rng, length, weights, methods, sig, per_step=3, pool=None):
     h = worldgen.Hist(g, rng, {"setm": EDIT_SETM + ["pop"], "pool": pool} if pool else {"setm": EDIT_SETM + ["pop"]})
     h.setup_pool()
@@ -50,7 +95,10 @@ def lookup_history(ctx, g, rng, length, weights, methods, sig, per_step=3, pool=
     if rng.random() < 0.5:
         judged_queries(ctx, h, rng, methods, 4, sig)          # build the lazy indexes early, so later edits are replayed, not rebuilt
     for _ in range(length):
-        edit_step(h, rng, weights)
+        if rng.random() < 0.12:
+            burst(h, rng)
+        else:
+            edit_step(h, rng, weights)
         if rng.random() < freq:
             if not judged_queries(ctx, h, rng, methods, per_step, sig):
                 return h
